@@ -1549,6 +1549,21 @@ func runSrv(prop string, r *common.Rand, tier string, o *common.Out, replay stri
 			}
 		}
 	}
+	if prop == "C04" {
+		// a heartbeat that names a target - of every dispatch style - is echoed and runs nothing, two-way or flagged one-way
+		k := 0
+		for _, style := range []string{"method", "pooled", "pooledv", "func", "funcp", "funcv", "router", "nosvc", "nometh", "nomethe"} {
+			for _, ow := range []bool{false, true} {
+				for _, pool := range []bool{false, true} {
+					k++
+					q := sreqCase{conn: 0, seq: 61, style: style, ser: 1, a: 6, b: 7, mode: "ok", hb: true, ow: ow}
+					reqs := []sreqCase{q, {conn: 0, seq: 62, style: style, ser: 1, a: 5, b: 6, mode: "ok"}}
+					srvRunCase(o, fmt.Sprintf("hbx%d", k), 1, reqs, []int{0, 1}, pool, false)
+					o.Count("heartbeat-naming-a-target")
+				}
+			}
+		}
+	}
 	n := 260
 	if tier == "thorough" {
 		n = 6000
